@@ -28,6 +28,7 @@ inductive Val
   | fn (name : String)           -- builtin / harness callables: R, len, str, int, bool
   | macros | template_
   | macro (name : Option Str)
+  | slots (id : Nat)             -- a deque of slot fillers (by reference: row `id` of the heap)
   deriving Repr, Inhabited, BEq
 
 /-- a user object (or message object) as the harness builds it -/
@@ -77,7 +78,7 @@ def typeName : Val → String
   | .bytes _ => "bytes" | .list _ => "list" | .tuple _ => "tuple" | .dict _ => "dict" | .obj _ => "Obj"
   | .markup _ => "Markup" | .cint _ => "callableint" | .cstr _ => "callablestr" | .repeatDict => "RepeatDict"
   | .repeatItem _ => "RepeatItem" | .errorInfo .. => "ErrorInfo" | .excClass _ => "type"
-  | .excValue c _ => c | .fn _ => "function" | .macros => "Macros" | .template_ => "PageTemplate" | .macro _ => "Macro"
+  | .excValue c _ => c | .fn _ => "function" | .macros => "Macros" | .template_ => "PageTemplate" | .macro _ => "Macro" | .slots _ => "deque"
 
 /-- `bool(v)` -/
 def truthy (tab : ObjTab) : Val → R Bool
